@@ -3,6 +3,7 @@ from __future__ import annotations
 
 from ..common import Report, main_wrapper, scratch
 from ..edgecheck import collect_edges, decide_edges
+from ..testrec import add_test_edges
 from .args import parse
 
 MODULES = ["harness.corpus.basic", "harness.corpus.depmat"]
@@ -16,6 +17,9 @@ def main():
     edges = collect_edges(MODULES, a.tier, cap=12 if quick else 48, depth2=1 if quick else 6,
                           select=sel, nshards=4)
     with scratch() as d:
+        if not a.only:
+            # the repository's own tests, recorded: every derivation step they perform is an edge too
+            edges += add_test_edges(rep, a.tier, d)[0]
         decide_edges(rep, edges, {"differ", "uninit", "cfg"}, stepbound=6000 if quick else 50000, workdir=d)
     rep.cov["rule"] = ("one case = one derivation edge (corpus procedure, real primitive, cursor, arguments) accepted by exo; "
                        "distinct = distinct derived IR (canonical hash), non-trivial = derived IR differs from source; "
